@@ -665,6 +665,7 @@ func c06child(args []string) int {
 }
 
 type c06env struct {
+	customAlg int
 	keys *gen.KeyRing
 	sum  *c06summary
 	cur  string // entry point / follow-up currently running (for attribution)
@@ -680,6 +681,13 @@ func (e *c06env) verifierFor(h cose.ProtectedHeader) cose.Verifier {
 		if k, ok := e.keys.By[a]; ok {
 			return k.Verifier
 		}
+		// an algorithm the library has no implementation for: the application brings its own verifier.
+		// Every other time it is one that also offers the digest entry point.
+		e.customAlg++
+		if e.customAlg%2 == 0 {
+			return &mon.SpyDigestVerifier{SpyVerifier: mon.SpyVerifier{Alg: a, Err: cose.ErrVerification}}
+		}
+		return &mon.SpyVerifier{Alg: a, Err: cose.ErrVerification}
 	}
 	return e.keys.Keys[0].Verifier
 }
